@@ -225,6 +225,53 @@ func (db *Database) DeleteControllerInput(controllerName string, dep controller.
 	return nil
 }
 
+// DeleteController removes all the outputs and inputs registered for the controller.
+//
+// It is used to roll back a registration which was rejected half-way.
+func (db *Database) DeleteController(controllerName string) {
+	db.mu.Lock()
+	defer db.mu.Unlock()
+
+	for resourceType, exclusiveController := range db.exclusiveOutputs {
+		if exclusiveController == controllerName {
+			delete(db.exclusiveOutputs, resourceType)
+		}
+	}
+
+	for resourceType, sharedControllers := range db.sharedOutputs {
+		sharedControllers = slices.DeleteFunc(sharedControllers, func(s string) bool {
+			return s == controllerName
+		})
+
+		if len(sharedControllers) == 0 {
+			delete(db.sharedOutputs, resourceType)
+		} else {
+			db.sharedOutputs[resourceType] = sharedControllers
+		}
+	}
+
+	for _, dep := range db.controllerInputs[controllerName] {
+		nsType := namespaceType{
+			Namespace: dep.Namespace,
+			Type:      dep.Type,
+		}
+
+		if id, ok := dep.ID.Get(); ok {
+			key := namespaceTypeID{namespaceType: nsType, ID: id}
+
+			db.inputLookupID[key] = slices.DeleteFunc(db.inputLookupID[key], func(s string) bool {
+				return s == controllerName
+			})
+		} else {
+			db.inputLookup[nsType] = slices.DeleteFunc(db.inputLookup[nsType], func(s string) bool {
+				return s == controllerName
+			})
+		}
+	}
+
+	delete(db.controllerInputs, controllerName)
+}
+
 // GetControllerInputs returns a list of controller dependencies.
 func (db *Database) GetControllerInputs(controllerName string) ([]controller.Input, error) {
 	db.mu.Lock()
